@@ -428,9 +428,15 @@ func (s *Session) writeCompressed(rw io.ReadWriter, p *Proposal) (err error) {
 	var (
 		title    = mime.QEncoding.Encode("utf-8", p.title) // Word-encode the title since this field must be ASCII-only
 		offset   = fmt.Sprintf("%d", p.offset)
-		length   = len(title) + len(offset) + 2
 		checksum int64
 	)
+
+	// The title is limited to 80 bytes by the protocol. A longer (encoded) title would
+	// also overflow the header's one byte length field and make the remote abort.
+	if len(title) > 80 {
+		title = title[:80]
+	}
+	length := len(title) + len(offset) + 2
 
 	writer.Write([]byte{_CHRSOH, byte(length)})
 	writer.WriteString(title) // Max 80 bytes, min 1 byte
